@@ -109,7 +109,39 @@ static int do_mandatory() {
     return 0;
 }
 
+// mode "isolate": a thread that waits inside this_task_arena::isolate executes only tasks spawned within the same isolation scope.
+// outer parallel_for bodies each open an isolated region with an inner parallel_for; while a thread is inside the region of outer iteration i
+// it must not start another outer body nor an inner body of another outer iteration.   input: seed P N M   output: OUTERINISO x FOREIGNINNER y LOST z
+static thread_local int tl_iso_depth = 0; static thread_local long tl_iso_owner = -1;
+static int do_isolate() {
+    std::vector<i128> c; Out o; Watchdog wd(60.0);
+    while (read_case(c)) {
+        unsigned seed = (unsigned)c[0]; int P = (int)c[1]; long N = (long)c[2], M = (long)c[3];
+        std::atomic<long> outer_in_iso{0}, foreign_inner{0}, done{0};
+        wd.arm(&o);
+        tbb::task_arena a(P);
+        a.execute([&] {
+            tbb::parallel_for(0L, N, [&](long i) {
+                if (tl_iso_depth > 0) outer_in_iso++;                       // an outer task taken while waiting inside an isolated region
+                tbb::this_task_arena::isolate([&] {
+                    long saved = tl_iso_owner; tl_iso_owner = i; tl_iso_depth++;
+                    tbb::parallel_for(0L, M, [&, i](long j) {
+                        if (tl_iso_depth > 0 && tl_iso_owner != i) foreign_inner++;   // inner task of another region taken inside this one
+                        volatile unsigned x = 0; for (unsigned k = 0; k < 200 + (unsigned)((seed + i + j) % 7) * 300; ++k) x += k;
+                        done++;
+                    }, tbb::simple_partitioner());
+                    tl_iso_depth--; tl_iso_owner = saved;
+                });
+            }, tbb::simple_partitioner());
+        });
+        wd.disarm();
+        o.word("OUTERINISO"); o.put(outer_in_iso.load()); o.word("FOREIGNINNER"); o.put(foreign_inner.load()); o.word("LOST"); o.put(N * M - done.load()); o.flush();
+    }
+    return 0;
+}
+
 int main(int argc, char** argv) {
+    if (argc > 1 && std::string(argv[1]) == "isolate") return do_isolate();
     if (argc > 1 && std::string(argv[1]) == "mandatory") return do_mandatory();
     std::vector<i128> c; Out o; Watchdog wd(120.0);
     while (read_case(c)) {
